@@ -61,7 +61,7 @@ let step fixed ln_removed ln_added =
   | Some ((rr, memo1), todo) ->
     pending := Some (s1, rr, memo1, todo);
     let m = rr.rr_maps in
-    Printf.printf "added=%s|removed=%s|reset=%s|rremoved=%s|U=%s|L=%s|M=%s|todo=%s|analyzed=%s\n"
+    Printf.printf "added=%s|removed=%s|reset=%s|rremoved=%s|U=%s|L=%s|M=%s|todo=%s|analyzed=%s\n%!"
       (show_list string_of_uid s1.added) (show_list string_of_uid s1.removed)
       (show_list string_of_uid rr.rr_all) (show_list string_of_uid rr.rr_removed)
       (show_pairs string_of_uid m.users_of)
@@ -99,6 +99,6 @@ let () =
           | None -> Some user) e in
       let cyc = Stdlib.List.sort_uniq compare cyc in
       (match get_all_affected e cyc with
-       | Some cl -> Printf.printf "cyc=%s|closure=%s\n" (show_list string_of_uid cyc) (show_list string_of_uid cl)
+       | Some cl -> Printf.printf "cyc=%s|closure=%s\n%!" (show_list string_of_uid cyc) (show_list string_of_uid cl)
        | None -> print_endline "OUTOFFUEL")
     | _ -> print_endline "BADCMD")
